@@ -1,8 +1,8 @@
 (* C02 — Every client-supplied path stays inside the user's base directory.
    Property statements only; proofs live in Proofs/Paths.v and Proofs/PathsWin.v. *)
 From Coq Require Import ZArith List Bool.
-From Verif Require Import Lib.Sx Lib.PyStr Lib.PosixPath Lib.WinPath Model.Paths Model.PathsWin
-  Proofs.PosixPathFacts Proofs.Paths Proofs.PathsWin.
+From Verif Require Import Lib.Sx Lib.PyStr Lib.PosixPath Lib.WinPath Model.Paths Model.PathsWin Model.PathsSess
+  Proofs.PosixPathFacts Proofs.Paths Proofs.PathsWin Proofs.PathsSess.
 Import ListNotations.
 Open Scope Z_scope.
 
@@ -148,3 +148,75 @@ Example C02_ex_win_plain :  (* base C:\ftp, cwd /, path "a/../b" -> C:\ftp\b, /b
   get_paths_win w_base w_root [97;47;46;46;47;98]
   = WOk (mkw [67;58] true [[102;116;112];[98]]) (mkp 1 [[98]]).
 Proof. vm_compute. reflexivity. Qed.
+
+(* ===== histories on ONE control connection with several logins =====
+   The Connection object survives USER/PASS; Server.user() replaces connection.user and sets
+   current_directory to the new user's home_path.  Model/PathsSess.v: `sess_run users st h` lists,
+   command by command, (base_path of the user logged in when the command ran, real paths handed
+   to connection.path_io) for the handlers as written (CWD/CDUP, the single-path commands,
+   STOR/APPE with their is_dir(real_path.parent) probe, RNFR/RNTO with connection.rename_from).
+   `pspec_run` is an independent bookkeeping over (index of current user, stack of names, rename
+   source as (owner, names)) whose outputs are labels (owner, names, parent?); `realise` maps a
+   label to  base_path(owner) ++ names  (or its parent).
+
+   For EVERY user table whose home paths are absolute, every first login and EVERY history: *)
+Theorem C02_session_spec : forall users i u h, homes_ok users -> nth_error users i = Some u ->
+  sess_run users (sess_start u) h
+  = map (fun co => (base_of users (fst co), map (realise users) (snd co)))
+        (pspec_run users (spec_start i u) h).
+Proof. exact session_spec. Qed.
+Print Assumptions C02_session_spec.
+
+(* what a path command resolves to is a function of the CURRENT user's base, the CURRENT working
+   directory and the argument: nothing an earlier command or an earlier login did can influence it
+   (the obligation the correspondence stream `relogin` checks on one reused Connection object) *)
+Theorem C02_path_output_history_independent : forall users st1 st2 s,
+  s_base st1 = s_base st2 -> s_cwd st1 = s_cwd st2 ->
+  snd (sess_step users st1 (EPath s)) = snd (sess_step users st2 (EPath s)).
+Proof. exact path_output_history_independent. Qed.
+Print Assumptions C02_path_output_history_independent.
+
+(* FULL STATEMENT (does not hold): every path handed to the backend by a command lies inside the
+   base directory of the user logged in when the command runs:
+     Forall (fun bo => Forall (fun p => confined (fst bo) p = true) (snd bo)) (sess_run users (sess_start u) h).
+   Refuted twice by the faithful model (both replayed on the real server by harness/props/c02.py):
+   F18  RNFR as one user, re-login, RNTO: the rename source is the OLD user's real path;
+   F19  STOR/APPE whose target is the virtual root: is_dir(base_path.parent) is asked. *)
+Theorem C02_session_rnfr_carried_refuted :
+  exists users i u h, homes_ok users /\ nth_error users i = Some u /\
+    Exists (fun bo => Exists (fun p => confined (fst bo) p = false) (snd bo)) (sess_run users (sess_start u) h).
+Proof. exact rnfr_carried_refuted. Qed.
+Print Assumptions C02_session_rnfr_carried_refuted.
+
+Theorem C02_session_stor_root_parent_refuted :
+  exists users i u h, homes_ok users /\ nth_error users i = Some u /\
+    Exists (fun bo => Exists (fun p => confined (fst bo) p = false) (snd bo)) (sess_run users (sess_start u) h).
+Proof. exact stor_root_parent_refuted. Qed.
+Print Assumptions C02_session_stor_root_parent_refuted.
+
+(* PARTIAL: every output OWNED by the current user (i.e. resolved under the current login -- all of
+   them except a rename source recorded before a re-login) that is not the parent probe of the
+   virtual root lies inside the current user's base.  Missing for the full statement: exactly
+   those two shapes. *)
+Theorem C02_session_confined_partial : forall users i u h, homes_ok users -> nth_error users i = Some u ->
+  Forall (fun co =>
+            Forall (fun l => l_owner l = fst co -> (l_parent l = false \/ l_names l <> []) ->
+                             confined (base_of users (fst co)) (realise users l) = true) (snd co))
+         (pspec_run users (spec_start i u) h).
+Proof. exact session_confined_partial. Qed.
+Print Assumptions C02_session_confined_partial.
+
+(* on the handler model itself: histories of logins, CWD/CDUP, single-path commands and RNFR *)
+Theorem C02_session_confined_plain : forall users i u h, homes_ok users -> nth_error users i = Some u ->
+  forallb plain_ev h = true ->
+  Forall (fun bo => Forall (fun p => confined (fst bo) p = true) (snd bo)) (sess_run users (sess_start u) h).
+Proof. exact session_confined_plain. Qed.
+Print Assumptions C02_session_confined_plain.
+
+Example C02_ex_session :   (* alice /alice, bob /bob: MLST /f ; login bob ; MLST /f  ->  /alice/f then /bob/f *)
+  sess_run [t_alice; t_bob] (sess_start t_alice) [EPath [47;102]; ELogin 1; EPath [47;102]]
+  = [ (u_base t_alice, [mkp 1 [[97;108;105;99;101];[102]]]); (u_base t_alice, []);
+      (u_base t_bob, [mkp 1 [[98;111;98];[102]]]) ].
+Proof. vm_compute. reflexivity. Qed.
+Example C02_ex_homes_ok : homes_ok [t_alice; t_bob].
+Proof. repeat constructor; cbn; discriminate. Qed.
